@@ -272,3 +272,36 @@ def idle_value(dom, state, field):
                                                               v.name[0] == 'init') and v.name not in dirty
         return ok, 'fresh empty container' if ok else 'not a fresh empty container: %s' % (v.name if v.kind == 'obj' else v.kind,)
     return True, 'not modelled'
+
+
+def replay_idle_clause(ctx, res, prop, clause_id, title):
+    """shared obligation (also decided by C09.b): every exit of play() leaves the invocation counter and the playback
+    outputs fresh - otherwise the next run numbers its outputs from a stale counter and answers from shifted keys"""
+    from ..report import Finding
+    roles = ctx.roles
+    c = res.clause(clause_id, 'R-TYPESTATE', title, floor=2)
+    d = run_method(ctx, roles.play, 'idle')
+    c.evaluations += d.visited_pairs
+    groups = {}
+    for n, s in d.exits:
+        bad = []
+        for f in (roles.counter, roles.outputs, roles.playback):
+            ok, desc = idle_value(d, s, f)
+            if not ok:
+                bad.append('%s %s' % (f, desc))
+        g = groups.setdefault(exit_kind(n), dict(ok=True, bad=None, n=0))
+        g['n'] += 1
+        if bad and g['ok']:
+            g['ok'] = False
+            g['bad'] = (n, s, bad)
+    okall = all(g['ok'] for g in groups.values())
+    for ek, g in sorted(groups.items()):
+        c.instance('play() exit=%s: counter / outputs / playback recording reset' % ek, roles.play.qualname, g['ok'], detail='%d states' % g['n'])
+    bads = [(ek, g['bad']) for ek, g in sorted(groups.items()) if not g['ok']]
+    if bads:
+        ek, (n, s, bad) = bads[0]
+        res.add(Finding(prop, clause_id, 'R-TYPESTATE', roles.play.file, roles.play.qualname, roles.play.node.lineno,
+                        'play() not reset on exit(s) %s: %s' % (','.join(e for e, _ in bads), '; '.join(sorted(bad))),
+                        'a replay can end (%s) with per-run state left behind (%s): the next recording or replay on this recorder numbers its '
+                        'outputs from the stale counter / sees stale outputs' % (ek, '; '.join(sorted(bad))), witness=d.path_to(n, s), exit=ek))
+    return okall
